@@ -10,13 +10,20 @@ BASELINE = ("cd /repo && /venv/bin/python -m pytest -ra -q -p no:cacheprovider -
 # pid -> (category, text, design_ref, level_note, technique)
 CHECKS = {
     "C20": ("model_checking",
-            "TLC checks the abstract types (IdSet, HashFile, codecs) as explicit TLA+ state machines; "
-            "TLC-generated call behaviours are replayed on every doc-id set class and call traces recorded "
-            "from the real classes are validated event by event by the *Trace.tla modules.",
+            "IdSet.tla is the abstract type of the doc-id sets: TLC-generated call behaviours are replayed on every "
+            "doc-id set class and call traces recorded from the real classes are validated event by event by "
+            "IdSetTrace.tla. TablesCheck.tla states the abstract types of the file-format building blocks - the "
+            "multimap a hash file must read back as (first value, all values in order, membership, iteration), "
+            "ordered files (key order, closest key at or after k, keys_from), decode(encode(x)) = x for every number "
+            "encoding / varint / GrowableArray / base85 / StructFile primitive, the external sort (ascending, same "
+            "multiset), compound files (byte-identical members, names, lengths) - and TLC judges observations of "
+            "HashWriter/Reader (3 hash functions, start offsets, duplicate and empty keys, values pushing offsets "
+            "past 2^16), OrderedHashWriter/Reader, numlists, varints, SortingPool (run sizes 1..1000, 2..128 way "
+            "merges) and CompoundWriter/CompoundStorage (buffer sizes 4..32K, saved as compound and as files).",
             "DESIGN.md 4.9, 5 (C20)",
-            "Trusted: TLC, the JSON bridge, the adapters in harness/props/c20.py that map abstract calls to "
-            "whoosh calls. Offsets beyond 2^31 are not built.",
-            "TLA+ spec + TLC; spec->code behaviour replay and code->spec trace validation"),
+            "Trusted: TLC, the JSON bridge, the adapters in harness/props/c20.py and harness/tables.py that map "
+            "abstract calls to whoosh calls. Offsets beyond 2^31 are not built (they need > 2 GB files).",
+            "TLA+ ADT specs + TLC; spec->code behaviour replay, code->spec trace validation and observation judging"),
 }
 
 CHECKS["C01"] = (
@@ -221,6 +228,24 @@ CHECKS["C16"] = (
     "property statement; fuzzy/regex/function/date syntax takes part in totality only. Totality is exhaustive only up "
     "to the stated token bound over the stated alphabet.",
     "TLA+ grammar/meaning spec: TLC renders expressions and enumerates inputs, real parsers and searches are judged by TLC")
+
+CHECKS["C17"] = (
+    "model_checking",
+    "AnalysisCheck.tla over QuerySem: the abstract index is built from the token streams the field's analyzer yields "
+    "in index mode, the real index is written by the real writer from the same texts. For 34 analyzer/field "
+    "configurations (standard, simple, stemming, 9 language analyzers, regex, keyword, id, n-gram fields and "
+    "filters, accent folding, intraword incl. the documented MultiFilter use, biword, shingle, metaphone, tee, "
+    "compound words, substitution) TLC judges: Term(t) for every index-time token, And(query-time tokens of the "
+    "document's own text), Phrase(runs of consecutive positions) - exact result sets and 'the document is found'; "
+    "parser.parse(own word) finds the document; positions increase; offsets stay inside the text and the source "
+    "slice analyses back to the token (offset-preserving analyzers); highlight fragments stripped of markup are "
+    "substrings of the stored text and marked spans analyse to query terms (4 fragmenters).",
+    "DESIGN.md 5 (C17)", "Texts are random concatenations of a fixed multi-script word pool (Latin with "
+    "diacritics, Cyrillic, Greek, CJK, Arabic, Hebrew, digits, URLs, e-mail, very long tokens, ligatures, "
+    "case-expanding letters, emoji). 'Offsets delimit exactly the source' is decided as: analysing the slice alone "
+    "gives the token back, for analyzers flagged offset-preserving in harness/props/c17.py; formatters other than a "
+    "marker formatter are not exercised (HTML escaping is not part of the statement).",
+    "TLA+ token-model spec (QuerySem + AnalysisCheck) judged by TLC over real indexes, parses and highlights")
 
 NOT_YET = {}
 
